@@ -43,7 +43,7 @@ Definition push_sel (already_merged : bool) (t : txn) (pc old_parent new_parent 
       | Some c => if tree_eqb c ours then t else set_tmp t (Some ours) ours
       | None => set_tmp t (Some ours) ours
       end in
-    match apply3way otree (t_tmp_content t1) theirs with
+    match apply3way (t_wt t1) otree (t_tmp_content t1) theirs with
     | Some merged => inl (set_tmp t1 (Some merged) merged, merged, PSNormal)
     | None =>
         let t1 := set_tmp t1 None (t_tmp_content t1) in
@@ -94,7 +94,7 @@ Proof.
   repeat match goal with
   | |- context [if ?b then _ else _] => destruct b
   | |- context [match t_tmp_id ?x with _ => _ end] => destruct (t_tmp_id x)
-  | |- context [match apply3way ?x ?y ?z with _ => _ end] => destruct (apply3way x y z)
+  | |- context [match apply3way ?a ?x ?y ?z with _ => _ end] => destruct (apply3way a x y z)
   | |- context [match twoway ?x ?y ?z with _ => _ end] => destruct (twoway x y z)
   | |- context [match merge3 ?x ?y ?z with _ => _ end] => destruct (merge3 x y z)
   end; repeat split; reflexivity.
@@ -368,3 +368,48 @@ Lemma execute_eq : forall w r msg,
   | THalt t h => exec_body w t (Some h) msg
   end.
 Proof. intros w [t|t h|t|] msg; reflexivity. Qed.
+
+(* ---------------------------------------------------------------- squash *)
+
+Lemma frame_new_unapplied : forall n o pos t, frame t (new_unapplied n o pos t).
+Proof. intros n o pos t. unfold new_unapplied. frame_cases. Qed.
+
+Lemma try_squash_fr : forall t ps meta msg t1 o, try_squash t ps meta msg = Some (t1, o) -> fr t t1.
+Proof.
+  intros t ps meta msg t1 o H. unfold try_squash in H.
+  destruct ps as [|b rest]; [discriminate|].
+  destruct (t_patch t b) as [bc|]; [|discriminate].
+  destruct (squash_tree (t_objs t) t rest (tree_of (t_objs t) bc)) as [tr|]; [|discriminate].
+  unfold put in H. injection H as <- _. split; [reflexivity|].
+  rewrite t_objs_set_objs. apply store_extends_put.
+Qed.
+
+Lemma frame_squash_finish : forall newn o to_push sp t, frame t (squash_finish newn o to_push sp t).
+Proof.
+  intros newn o to_push sp t. unfold squash_finish.
+  apply frame_tbind; [apply frame_new_unapplied|]. intros t1 _. apply frame_push_patches.
+Qed.
+
+Lemma frame_squash_closure : forall ps newn meta msg sp t, frame t (squash_closure ps newn meta msg sp t).
+Proof.
+  intros ps newn meta msg sp t. unfold squash_closure.
+  destruct (try_squash t ps meta msg) as [[t1 o]|] eqn:Et.
+  - apply try_squash_fr in Et.
+    pose proof (fr_delete (fun n => mem n ps) t1) as Hd.
+    destruct (delete_patches _ t1) as [t2 to_push]. cbn [fst] in Hd.
+    eapply frame_fr; [eapply fr_trans; [exact Et|exact Hd]|]. apply frame_squash_finish.
+  - pose proof (fr_pop (fun n => mem n ps) t) as Hp.
+    destruct (pop_patches _ t) as [t1 to_push]. cbn [fst] in Hp.
+    eapply frame_fr; [exact Hp|]. apply frame_tbind; [apply frame_push_patches|].
+    intros t2 _. destruct (try_squash t2 ps meta msg) as [[t3 o]|] eqn:Et2; [|apply fr_refl].
+    apply try_squash_fr in Et2.
+    pose proof (fr_delete (fun n => mem n ps) t3) as Hd.
+    destruct (delete_patches _ t3) as [t4 extra]. cbn [fst] in Hd.
+    destruct extra; [|exact I].
+    eapply frame_fr; [eapply fr_trans; [exact Et2|exact Hd]|]. apply frame_squash_finish.
+Qed.
+
+(* the world of run_squash is the one its transaction returned *)
+Lemma squash_exit_fst : forall (p : world * exitc) (b : bool),
+  fst (let '(w', x) := p in if b then (w', X3) else (w', x)) = fst p.
+Proof. intros [w' x] b. destruct b; reflexivity. Qed.
